@@ -3,10 +3,10 @@
 (* not, message and RGSW plaintext classes, RGSW-level operation.                                             *)
 EXTENDS Integers, Sequences, TLC, Json
 VARIABLE c
-Sets == {"q28", "q28b4", "q55", "q2p1", "q2p1b20", "q2p2", "q3p2"}
+Sets == {"q28", "q28b4", "q55", "q2p1", "q2p1b20", "q2p2", "q3p2", "q28p1", "q28p1b0", "q28p2", "q2lowp1"}
 Configs == [set : Sets, inplace : BOOLEAN, lowlevel : BOOLEAN, mcls : {"mono", "ternary", "const", "dense"},
             gcls : {"one", "mono", "negmono", "ternary", "const"}, gop : {"plain", "add", "mulxa", "mulxaadd"}]
-Init == c \in {x \in Configs : (x.lowlevel => x.set \in {"q2p1", "q2p2", "q3p2"})}
+Init == c \in {x \in Configs : (x.lowlevel => x.set \in {"q2p1", "q2p2", "q3p2", "q2lowp1"})}
 Next == UNCHANGED c
 GSpec == Init /\ [][Next]_c
 Emit == PrintT(<<"PROG", ToJson(c)>>)
